@@ -59,6 +59,23 @@ def run(R):
         if pf is not None:
             handlers['field'] = 'process_field'
         own_name = {'FileDescriptorProto': None, 'DescriptorProto': 'message', 'EnumDescriptorProto': 'enum'}
+        # parameters by role, not by position or name: the name-joining helper's (prefix, kind, optional name), each indexer's
+        # prefix (&str) and declaring-file (Arc<FileDescriptorProto>) parameters
+        exb = refl.body('server::extract_name')
+        ie_ = exb.calls(name='is_empty')
+        PRE_N = arg_root(strip_refs(exb.origin(ie_[0][1]['args'][0]))) if len(ie_) == 1 else None
+        NAME_N = param_of_type(exb, r'^(std::option::|core::option::)?Option<')
+        if PRE_N is None:
+            raise CheckError('UNRECOGNISED: extract_name does not test one parameter with is_empty()')
+        STR = r"^&('\w+ )?str$"
+        FD = r'Arc<.*FileDescriptorProto>'
+
+        def is_param(b_, t_, n_):
+            x_ = strip_refs(t_)
+            for _ in range(4):
+                if is_call(x_) and x_[3] in ('clone', 'deref', 'as_ref', 'borrow', 'as_str') and x_[2]:
+                    x_ = strip_refs(x_[2][0])
+            return x_[:2] == ('arg', n_)
         for ty, b in fns.items():
             its = iterated_fields(b)
             got = sorted(f for f, bb, o in its if f in sum(kinds.values(), []) if isinstance(f, str))
@@ -68,7 +85,7 @@ def run(R):
             ins = [(bb, t) for bb, t in b.calls(pat='HashMap', name='insert') if mentions_field(b.origin(t['args'][0]), 'symbols')]
             if own_name[ty]:
                 own = [(bb, t) for bb, t in ins if not any(bb in loop_region(b, ib)[0] for f, ib, o in its)]
-                okown = len(own) == 1 and term_contains(b.origin(own[0][1]['args'][1]), lambda x: is_call(x, name='extract_name') and show(strip_refs(x[2][0])).startswith('arg3'))
+                okown = len(own) == 1 and term_contains(b.origin(own[0][1]['args'][1]), lambda x: is_call(x, name='extract_name') and is_param(b, x[2][PRE_N - 1], param_of_type(b, STR)))
                 R.check(okown, 'C19.R1', 'own-symbol:%s' % ty, site(b), '%s registers its own name as extract_name(prefix, ..): %r' % (short(b.path), okown))
             for f, ib, o in its:
                 if f not in sum(kinds.values(), []) and f != 'method':
@@ -80,7 +97,8 @@ def run(R):
                     hc = [(bb, t) for bb, t in calls_in if t.get('name') == handlers[f]]
                     R.check(len(hc) == 1, 'C19.R1', 'loop:%s.%s->%s' % (ty, f, handlers[f]), site(b, ib), 'loop over %s calls %s: %d site(s)' % (f, handlers[f], len(hc)))
                     for bb, t in hc:
-                        pre = b.origin(t['args'][2])
+                        hb_ = refl.body('server::ReflectionServiceState::' + handlers[f])
+                        pre = b.origin(t['args'][param_of_type(hb_, STR) - 1])
                         if ty == 'FileDescriptorProto':
                             okp = mentions_field(pre, 'package')
                             R.check(okp, 'C19.R1', 'prefix:%s.%s=package' % (ty, f), site(b, bb), 'prefix = %s' % show(pre)[:100])
@@ -88,7 +106,7 @@ def run(R):
                             okp = term_contains(pre, lambda x: is_call(x, name='extract_name'))
                             R.check(okp, 'C19.R1', 'prefix:%s.%s=parent-name' % (ty, f), site(b, bb),
                                     'prefix handed to %s = %s; required: the qualified name of the enclosing declaration (else a.B.C registers as a.C)' % (handlers[f], show(pre)[:100]))
-                        el = b.origin(t['args'][3])
+                        el = b.origin(t['args'][param_of_type(hb_, r'DescriptorProto$') - 1])
                         R.check(term_contains(el, lambda x: is_call(x, name='next')), 'C19.R1', 'element:%s.%s' % (ty, f), site(b, bb), 'the loop element is what is processed')
                 else:
                     ic = [(bb, t) for bb, t in calls_in if t.get('name') == 'insert' and 'HashMap' in (t.get('fn') or '')]
@@ -99,19 +117,19 @@ def run(R):
                         if not exs:
                             R.bad('C19.R1', 'name:%s.%s' % (ty, f), site(b, bb), 'registered key is not built by extract_name: %s' % show(key)[:100])
                             continue
-                        pre = exs[0][2][0]
+                        pre = exs[0][2][PRE_N - 1]
                         if ty == 'FileDescriptorProto' and f == 'service':
                             okp = mentions_field(pre, 'package')
                         else:
                             okp = term_contains(pre, lambda x: is_call(x, name='extract_name'))
                         R.check(okp, 'C19.R1', 'name:%s.%s:qualified' % (ty, f), site(b, bb), 'key = extract_name(%s, ..)' % show(pre)[:80])
-                        nm = exs[0][2][2]
+                        nm = exs[0][2][NAME_N - 1]
                         R.check(mentions_field(nm, 'name') and term_contains(nm, lambda x: is_call(x, name='next')), 'C19.R1', 'name:%s.%s:element-name' % (ty, f), site(b, bb), 'name part = %s' % show(nm)[:80])
                         val = b.origin(t['args'][2])
-                        R.check(term_contains(val, lambda x: x and x[0] == 'arg' and x[2] == 'fd'), 'C19.R1', 'value:%s.%s=declaring-file' % (ty, f), site(b, bb), 'value = %s' % show(val)[:80])
+                        R.check(term_contains(val, lambda x: x and x[0] == 'arg' and x[1] == param_of_type(b, FD)), 'C19.R1', 'value:%s.%s=declaring-file' % (ty, f), site(b, bb), 'value = %s' % show(val)[:80])
         if pf is not None:
             ins = [(bb, t) for bb, t in pf.calls(pat='HashMap', name='insert')]
-            okf = len(ins) == 1 and term_contains(pf.origin(ins[0][1]['args'][1]), lambda x: is_call(x, name='extract_name') and show(strip_refs(x[2][0])).startswith('arg3')) and mentions_field(pf.origin(ins[0][1]['args'][0]), 'symbols')
+            okf = len(ins) == 1 and term_contains(pf.origin(ins[0][1]['args'][1]), lambda x: is_call(x, name='extract_name') and is_param(pf, x[2][PRE_N - 1], param_of_type(pf, STR))) and mentions_field(pf.origin(ins[0][1]['args'][0]), 'symbols')
             R.check(okf, 'C19.R1', 'field-registered', site(pf), 'process_field: symbols.insert(extract_name(prefix, field.name), fd): %r' % okf)
         else:
             R.ok('C19.R1', 'field-registered', site(fns['DescriptorProto']), 'fields are registered inline in process_message (checked as loop:DescriptorProto.field->insert)')
@@ -125,22 +143,25 @@ def run(R):
         ex = refl.body('server::extract_name')
         R.saw(ex)
         ie = ex.calls(name='is_empty')
-        R.check(len(ie) == 1 and show(strip_refs(ex.origin(ie[0][1]['args'][0]))).startswith('arg1'), 'C19.R2', 'empty-prefix-test', site(ex), 'prefix.is_empty()')
+        P_N = arg_root(strip_refs(ex.origin(ie[0][1]['args'][0]))) if len(ie) == 1 else None
+        N_N = param_of_type(ex, r'^(std::option::|core::option::)?Option<')
+        R.check(len(ie) == 1 and P_N is not None and re.search(r"^&('\w+ )?str$", ex.ty(P_N)) is not None, 'C19.R2', 'empty-prefix-test', site(ex), 'prefix.is_empty() on a &str parameter')
+        has_arg = lambda t_, n_: term_contains(t_, lambda x: isinstance(x, tuple) and x and x[0] == 'arg' and x[1] == n_)
         fm = ex.calls(pat='fmt::Arguments', name='new')
         dot = False
         for bb, t in fm:
             lit = const_val(ex.origin(t['args'][0]))
             g = ex.edge_guards(bb)
             if isinstance(lit, bytes) and b'.' in lit and any(is_call(strip_refs(tm), name='is_empty') and vals == [0] for s, vals, tm in g):
-                args = show(ex.origin(t['args'][1]))
-                dot = 'arg1' in args and 'arg3' in args
+                args = ex.origin(t['args'][1])
+                dot = has_arg(args, P_N) and has_arg(args, N_N)
         R.check(dot, 'C19.R2', 'join-with-dot', site(ex), 'format!("{}.{}", prefix, name) on the non-empty edge: %r' % dot)
         ts = ex.calls(name='to_string') + ex.calls(name='clone') + ex.calls(name='to_owned')
-        ts = [(bb, t) for bb, t in ts if term_contains(ex.origin(t['args'][0]), lambda x: x and x[0] == 'arg' and x[1] == 3) or 'arg3' in show(ex.origin(t['args'][0]))]
+        ts = [(bb, t) for bb, t in ts if has_arg(ex.origin(t['args'][0]), N_N)]
         okt = any(any(is_call(strip_refs(tm), name='is_empty') and (vals == ['else'] or 0 not in vals) for s, vals, tm in ex.edge_guards(bb)) for bb, t in ts)
         R.check(okt, 'C19.R2', 'bare-name-when-no-prefix', site(ex), 'name.to_string() on the empty-prefix edge')
         errs = [bb for bb, i, p, a, ops in mirlib.aggregates(ex, 'result::Result', 'Err') if p['l'] == 0]
-        R.check(len(errs) == 1 and any(tm[0] == 'discr' and 'arg3' in show(tm) and vals in ([0], ['else']) for s, vals, tm in ex.edge_guards(errs[0])), 'C19.R2', 'missing-name-error', site(ex), 'None name -> Err(InvalidFileDescriptorSet)')
+        R.check(len(errs) == 1 and any(tm[0] == 'discr' and has_arg(tm, N_N) and vals in ([0], ['else']) for s, vals, tm in ex.edge_guards(errs[0])), 'C19.R2', 'missing-name-error', site(ex), 'None name -> Err(InvalidFileDescriptorSet)')
 
     # ---------------------------------------------------------------- R3 files / lookups
     R.describe('C19.R3', 'files are registered once by name (duplicates skipped, missing name = error); file_by_filename / symbol_by_name answer NOT_FOUND on a miss and the encoded descriptor otherwise')
